@@ -53,8 +53,7 @@ def rule_r1(ck, prog, rule='C17.R1', cls='sdk::metrics::ObservableRegistry'):
     unl = [p for p in invokes if 'this.' + mutexes[0] not in held.get(p.id, ())]
     ck.verdict(not unl, rule, f, 'callback-invoked-under-lock', (unl or invokes)[0].n, 'callbacks run holding %s' % mutexes[0] if not unl else
                'a callback is invoked without holding %s: RemoveCallback / the instrument destructor can return while the callback is still going to run (removed callback invoked again, use of a destroyed instrument)' % mutexes[0])
-    loops = [n for n in f.nodes if n['k'] == 'forrange']
-    own = [lp for lp in loops if access_path(f, lp['range']) == ('this', lst)]
+    from .common import iteration_starts
     inv_loop = None
     pm = f.parent_map()
     x = invokes[0].n['i']
@@ -63,13 +62,41 @@ def rule_r1(ck, prog, rule='C17.R1', cls='sdk::metrics::ObservableRegistry'):
         if f.nodes[x]['k'] in ('forrange', 'for', 'while'):
             inv_loop = f.nodes[x]
             break
-    ok = inv_loop is not None and any(inv_loop is lp for lp in own)
+    # the record whose callback runs is an element of the member list itself (range-for over it, or indexed / iterated access to
+    # it), never of a local copy of the list
+    def from_member_list(idx, ctx, depth=4):
+        members, copies = set(), False
+        for (sf, sn, sc) in origins(g, rd, f, idx, ctx):
+            for j in sf.subtree(sn['i']):
+                m = sf.nodes[j]
+                if m['k'] == 'member' and m.get('mk') != 'method':
+                    members.add(m['name'])
+                elif m['k'] == 'ref' and m.get('sk') == 'local' and j != idx and depth > 0:
+                    t = (m.get('t') or '')
+                    dt = [d['t'] for nn in sf.nodes if nn['k'] == 'declstmt' for d in nn['decls'] if d['id'] == m.get('id')]
+                    if dt and ('vector<' in dt[0] or 'list<' in dt[0]) and not dt[0].rstrip().endswith('&') and 'unique_ptr<' not in dt[0].split('vector<')[0]:
+                        copies = True
+                    mm, cc = from_member_list(j, sc, depth - 1)
+                    members |= mm
+                    copies = copies or cc
+        return members, copies
+    base = f.nodes[invokes[0].n['fx']].get('base')
+    root = base
+    members, copies = from_member_list(root, invokes[0].ctx) if root is not None else (set(), False)
+    if inv_loop is not None and inv_loop['k'] == 'forrange':
+        if access_path(f, inv_loop['range']) == ('this', lst):
+            members.add(lst)
+        else:
+            mm, cc = from_member_list(inv_loop['range'], g.root_ctx)
+            members |= mm
+            copies = copies or cc or (f.nodes[inv_loop['range']]['k'] == 'ref' and f.nodes[inv_loop['range']].get('sk') == 'local')
+    ok = inv_loop is not None and lst in members and not copies
     ck.verdict(ok, rule, f, 'iterates-the-registered-list', inv_loop, 'the callbacks are invoked from a loop over the member list' if ok else
                'callbacks are invoked from a copy/snapshot of the list, not from the registered list itself: removals made meanwhile are not seen')
     # exactly once per iteration, on every path that does not leave the loop through the named early exit
     if inv_loop is not None:
         body_pts = [p for p in g.points if p.n is not None and p.n['i'] in set(f.subtree(inv_loop['body']))]
-        iter_start = [p for p in g.points if p.n is not None and p.n['k'] == 'declstmt' and any(d['id'] == inv_loop.get('var') for d in p.n['decls'])]
+        iter_start = iteration_starts(g, f, inv_loop)
         twice = any(b.id in g.reachable_from([q for (q, _l) in a.succ], avoid=iter_start) for a in invokes for b in invokes)
         recs = [p for p in g.points if p.n is not None and p.n['k'] == 'call' and p.n.get('virt') and strip_targs(p.n.get('c', '')).rsplit('::', 1)[-1] in ('RecordLong', 'RecordDouble')]
         followed = all(g.must_reach(a, recs, stop=iter_start) for a in invokes)
